@@ -73,6 +73,7 @@ REJECT = {
     "context-malformed": (3, False), "run-space-duplicate-keys": (3, False), "unknown-trace-driver": (3, True),
     "run-space-mismatched-lengths": (3, True), "run-space-block-sizes-differ": (3, True),
     "run-space-over-max-runs": (3, True), "missing-context-key": (3, True), "run-space-attempt-zero": (3, True),
+    "run-space-duplicate-key-via-source": (3, True),
 }
 
 
@@ -88,10 +89,12 @@ def node_yaml(n):
 
 def out_type(n):
     k = n["k"]
-    if k in ("rename", "delete", "template"):
+    if k in ("rename", "delete", "template", "copyprobe"):
         return "TAny"
     if k == "sweep":
-        return "TC"      # a sweep produces the collection of its element processor's outputs
+        return "TC" if n["elem"] not in pg.PROBES else "TF"      # a sweep produces the collection of its element's outputs
+    if k == "slice":
+        return "TC"
     return "TF"
 
 
@@ -117,7 +120,9 @@ def config_dict(case, nodes=None, rs=None):
     if case["trace"] == "yaml":
         cfg["trace"] = {"driver": "jsonl", "output_path": case.get("trace_path", "tr")}
     if rs is not None:
-        block = {"combine": rs["combine"], "blocks": [{"mode": b["mode"], "context": {k: pg.v_impl(v) for k, v in b["context"]}} for b in rs["blocks"]]}
+        block = {"combine": rs["combine"], "blocks": [dict({"mode": b["mode"], "context": {k: pg.v_impl(v) for k, v in b["context"]}},
+                                                           **({"source": {"format": "csv", "path": b["source"]["path"]}} if b.get("source") else {}))
+                                                      for b in rs["blocks"]]}
         if rs.get("max_runs") is not None:
             block["max_runs"] = rs["max_runs"]
         if rs.get("dry_run"):
@@ -180,6 +185,13 @@ def run_case(case):
         if case["file"] != "missing":
             with open(os.path.join(d, "p.yaml"), "w") as f:
                 f.write(yaml_text(case))
+        for b in ((case.get("rs") or {}).get("blocks") or []):
+            if b.get("source"):          # a CSV file the block loads its columns from
+                cols = b["source"]["cols"]
+                with open(os.path.join(d, b["source"]["path"]), "w") as f:
+                    f.write(",".join(k for k, _ in cols) + "\n")
+                    for i in range(len(cols[0][1])):
+                        f.write(",".join(str(vs[i]) for _, vs in cols) + "\n")
         env = dict(os.environ)
         env.update({"PYTHONPATH": core.REPO, "PYTHONHASHSEED": "0", "PYTHONDONTWRITEBYTECODE": "1"})
         cmd = [core.PY, "-m", "semantiva.cli"] + argv_of(case)
@@ -393,7 +405,11 @@ def mk_case(rng, cls, flags=None, trace=None):
     elif cls == "probe-without-context-key":
         nodes.insert(rng.randint(1, len(nodes) - 1), {"k": "probe", "ckey": None})
     elif cls == "type-incompatible-neighbours":
-        nodes.insert(rng.randint(1, len(nodes) - 1), {"k": "csum"})
+        i = rng.randint(1, len(nodes) - 1)
+        nodes.insert(i, {"k": "csum"})
+        if rng.random() < 0.5:
+            # ... with a base-typed pass-through probe (declared BaseDataType) between the two incompatible nodes
+            nodes.insert(i, {"k": "copyprobe", "ckey": "seen"})
     elif cls == "deleted-then-required-key":
         i = rng.randint(1, len(nodes) - 1)
         nodes.insert(i, {"k": "delete", "a": "addend"})
@@ -412,6 +428,10 @@ def mk_case(rng, cls, flags=None, trace=None):
         case["trace"] = None
     elif cls == "run-space-duplicate-keys":
         case["rs"]["blocks"] = case["rs"]["blocks"][:1] + [{"mode": "by_position", "context": [["tag", ["x"] * case["n_runs"]]]}]
+    elif cls == "run-space-duplicate-key-via-source":
+        # a later block loads a column from a file whose name an earlier block already defines
+        case["rs"]["blocks"] = case["rs"]["blocks"][:1] + [{"mode": "by_position", "context": [],
+                                                            "source": {"path": "cols.csv", "cols": [["tag", ["x"] * case["n_runs"]]]}}]
     elif cls == "run-space-mismatched-lengths":
         b = case["rs"]["blocks"][0]
         b["context"] = b["context"] + [["extra", [1] * (case["n_runs"] + 1)]]
@@ -543,8 +563,10 @@ def request_coq(case):
     if rs is None:
         spec = "default_spec"
     else:
-        bl = ["(RunSpace.mkBlock %s %s None)" % ("RunSpace.ByPosition" if b["mode"] == "by_position" else "RunSpace.Combinatorial",
-                                                 cq_list([cq_pair(cq_str(k), cq_list(vs, rs_val)) for k, vs in b["context"]]))
+        cols_lit = lambda cs: cq_list([cq_pair(cq_str(k), cq_list(vs, rs_val)) for k, vs in cs])  # noqa: E731
+        bl = ["(RunSpace.mkBlock %s %s %s)" % ("RunSpace.ByPosition" if b["mode"] == "by_position" else "RunSpace.Combinatorial",
+                                               cols_lit(b["context"]),
+                                               "(Some (RunSpace.mkSource %s None [] RunSpace.ByPosition))" % cols_lit(b["source"]["cols"]) if b.get("source") else "None")
               for b in rs["blocks"]]
         spec = "(RunSpace.mkSpec %s %s %s)" % ("RunSpace.ByPosition" if rs["combine"] == "by_position" else "RunSpace.Combinatorial",
                                                cq_Z(rs["max_runs"] if rs.get("max_runs") is not None else 1000), cq_list(bl))
